@@ -41,6 +41,9 @@ CHECKS = {
  "C09": dict(level="model_checking", design="4/C09",
    text="Action property ThirdPartyInert and invariant NoHookForThirdParty of Requestor.tla checked exhaustively; every enumerated script containing third-peer messages (any status, with/without data, response hook reacting ok/update/error, at every stable point) is replayed on the real requestor with a raw third peer: its responses must reach no response or block hook, nothing may be sent to it, and the outcome must equal that of the same script without the third peer's messages (baseline run), judged by RequestorOracle.tla.",
    note=TB + "; update requests to the responder are not compared (same-id requests coalesce in one outgoing message)", technique="TLC exhaustive action property + replay of all TLC-enumerated scripts with baseline comparison"),
+ "C23": dict(level="model_checking", design="4/C23",
+   text="Invariant StateAgreesWithQueue (Quiescent => queued<=>pending, running<=>active, paused/ended => no task) of Requestor.tla checked exhaustively, including a busy-worker start that keeps the request queued; at the quiescent end of every replayed environment script (cancels, pauses, unpauses, failures, hook errors, third-peer messages, at queued / pre-load / waiting / in-hook / idle points) the real node's PeerState(p).Diagnostics() must be empty, reported state and task-queue membership must agree and the connection protection of an ended request must be gone (RequestorOracle.tla C23Problems).",
+   note=TB + "; requestor side only in this check; the responder side of the statement (Stats() of the allocator, incoming request states) is exercised by the C05/C15 checks", technique="TLC exhaustive invariant + observation at quiescence of all replayed TLC scripts"),
 }
 NA_REASON = "not built yet in this round (check under construction; see DESIGN.md section 4 for the plan)"
 def main():
